@@ -1,6 +1,8 @@
-"""libFuzzer phase (thorough tier of C01 and C16): coverage-guided mutation of a corpus emitted by the
-generator, with the walker and its monitors as the oracle. Crashing inputs are replayed through the
-main harness binary, which classifies them (crate panic -> C01, step budget / item bound -> C16)."""
+"""libFuzzer phases (thorough tier): coverage-guided inputs judged by the same oracles as the checks.
+
+Every fuzz target calls elfmon::fuzz::fuzz_one(target, data) and aborts on a violation; crashing inputs
+are replayed through the main harness binary (`elfmon fuzzcase <target> <file>`), which prints the
+violations with their property id, and only those of the property being checked are reported."""
 import glob
 import os
 import re
@@ -8,13 +10,72 @@ import shutil
 import subprocess
 import time
 
-from common import TARGET, VERIF, WORK, base_env, build_main, log, workdir
+from common import TARGET, VERIF, base_env, build_main, workdir
 
 FUZZ = os.path.join(VERIF, "fuzz")
+HARNESS_DIR = os.path.join(VERIF, "harness")  # cargo-fuzz wants to be started inside a cargo project
+# property -> (fuzz target, use value profile)
+TARGETS = {
+    "C01": ("walker", False), "C16": ("walker", False), "C02": ("decode", True), "C19": ("tostr", True), "C14": ("notes", True),
+    "C15": ("strtab", True), "C07": ("stream", False), "C08": ("stream", False), "C03": ("ranges", False), "C05": ("locate", False),
+}
+_built = False
 
 
-def run(pid, tier, seed, seconds=240):
+def make_dict(path):
+    """libFuzzer dictionary from the literals of the crate's current sources (non-test code): byte-string and string
+    literals, and integer literals of the parser modules (not abi.rs) in both byte orders. A comparison against a
+    literal is otherwise found only by luck."""
+    import struct
+    entries = set()
+    src = "/repo/src"
+    for fn in sorted(os.listdir(src)):
+        if not fn.endswith(".rs"):
+            continue
+        text = open(os.path.join(src, fn), errors="replace").read()
+        cut = text.find("#[cfg(test)]")
+        if cut >= 0:
+            text = text[:cut]
+        text = re.sub(r"//[^\n]*", "", text)
+        for m in re.finditer(r'b"((?:[^"\\]|\\.){1,24})"', text):
+            try:
+                entries.add(bytes(m.group(1), "latin1").decode("unicode_escape").encode("latin1"))
+            except Exception:
+                pass
+        if fn in ("abi.rs", "to_str.rs"):
+            continue
+        for m in re.finditer(r'(?<![A-Za-z0-9_])(0x[0-9a-fA-F_]{2,18}|[1-9][0-9_]{1,18})(?:u8|u16|u32|u64|usize|i32|i64)?(?![A-Za-z0-9_.])', text):
+            try:
+                v = int(m.group(1).replace("_", ""), 0)
+            except ValueError:
+                continue
+            if v < 3:
+                continue
+            for w, f in ((1, "B"), (2, "H"), (4, "I"), (8, "Q")):
+                if v < (1 << (8 * w)):
+                    entries.add(struct.pack("<" + f, v))
+                    entries.add(struct.pack(">" + f, v))
+                    break
+    with open(path, "w") as f:
+        for i, e in enumerate(sorted(entries)):
+            f.write('kw%d="%s"\n' % (i, "".join("\\x%02x" % b for b in e)))
+    return len(entries)
+
+
+def _build(env):
+    global _built
+    if _built:
+        return None
+    b = subprocess.run(["cargo", "+nightly", "fuzz", "build", "--fuzz-dir", FUZZ, "-s", "none", "-a"], cwd=HARNESS_DIR, env=env, capture_output=True, text=True)
+    if b.returncode != 0:
+        return "cargo fuzz build failed: " + b.stderr[-1500:]
+    _built = True
+    return None
+
+
+def run(pid, tier, seed, seconds=150):
     res = {"violations": [], "inconclusive": [], "counters": {}, "maxes": {}, "samples": [], "evaluations": 0, "digests": set(), "coverage": {}}
+    target, value_profile = TARGETS[pid]
     binp = build_main()
     if binp is None:
         res["inconclusive"].append("harness build failed")
@@ -24,60 +85,68 @@ def run(pid, tier, seed, seconds=240):
     art = os.path.join(wd, "artifacts") + "/"
     os.makedirs(corpus)
     os.makedirs(art)
-    # seed corpus from the generator (same 12 kinds as the corpus of C01)
-    r = subprocess.run([binp, "emit-corpus", corpus, "--seed", str(seed), "--count", "600"], capture_output=True, text=True)
+    r = subprocess.run([binp, "emit-corpus", corpus, "--target", target, "--seed", str(seed), "--count", "400"], capture_output=True, text=True)
     if r.returncode != 0:
-        res["inconclusive"].append("emit-corpus failed: " + r.stderr[-300:])
+        res["inconclusive"].append("emit-corpus failed: " + (r.stderr + r.stdout)[-300:])
         return res
+    nseeds = len(os.listdir(corpus))
     env = base_env()
     env["RUSTFLAGS"] = "--cfg elf_verif_hooks -C overflow-checks=on"
     env["CARGO_TARGET_DIR"] = os.path.join(TARGET, "fuzz")
-    env.pop("CARGO_NET_OFFLINE", None)  # cargo fuzz rejects --offline; [net] offline is set in fuzz/.cargo/config.toml
-    b = subprocess.run(["cargo", "+nightly", "fuzz", "build", "-s", "none", "-a", "walker"], cwd=FUZZ, env=env, capture_output=True, text=True)
-    if b.returncode != 0:
-        res["inconclusive"].append("cargo fuzz build failed: " + b.stderr[-1200:])
+    env.pop("CARGO_NET_OFFLINE", None)  # cargo fuzz rejects --offline; fuzz/.cargo/config.toml sets [net] offline
+    err = _build(env)
+    if err:
+        res["inconclusive"].append(err)
         return res
-    cmd = ["cargo", "+nightly", "fuzz", "run", "-s", "none", "-a", "walker", corpus, "--",
-           f"-max_total_time={seconds}", "-fork=16", "-timeout=10", "-ignore_crashes=1", "-ignore_timeouts=1", "-ignore_ooms=1",
+    cmd = ["cargo", "+nightly", "fuzz", "run", "--fuzz-dir", FUZZ, "-s", "none", "-a", target, corpus, "--",
+           f"-max_total_time={seconds}", "-fork=16", "-timeout=20", "-ignore_crashes=1", "-ignore_timeouts=1", "-ignore_ooms=1",
            "-max_len=8192", f"-artifact_prefix={art}", f"-seed={seed}", "-print_final_stats=1"]
+    if value_profile:
+        cmd.append("-use_value_profile=1")
+    dict_path = os.path.join(wd, "literals.dict")
+    ndict = make_dict(dict_path)
+    cmd.append(f"-dict={dict_path}")
     t0 = time.time()
     try:
-        f = subprocess.run(cmd, cwd=FUZZ, env=env, capture_output=True, text=True, timeout=seconds + 600)
+        f = subprocess.run(cmd, cwd=HARNESS_DIR, env=env, capture_output=True, text=True, timeout=seconds + 900)
         out = f.stderr + f.stdout
     except subprocess.TimeoutExpired:
         res["inconclusive"].append("libFuzzer run hit the driver's watchdog")
         return res
-    # last status line of the fork-mode parent: "#123456: cov: 3456 ft: 7890 corp: 1234 exec/s 5678 ..."
     m = re.findall(r"#(\d+): cov: (\d+) ft: (\d+) corp: (\d+)", out)
-    if m:
-        execs, cov, ft, corp = (int(x) for x in m[-1])
-    else:
-        execs = cov = ft = corp = 0
+    execs, cov, ft, corp = (int(x) for x in m[-1]) if m else (0, 0, 0, 0)
     res["evaluations"] = execs
-    res["counters"] = {"fuzz:executions": execs, "fuzz:coverage-edges": cov, "fuzz:features": ft, "fuzz:corpus-units": corp,
-                       "fuzz:seed-corpus-files": 600}
-    res["coverage"] = {"engine": "libFuzzer -fork=16", "seconds": round(time.time() - t0, 1), "executions": execs, "coverage_edges": cov,
-                       "corpus_units": corp, "max_len": 8192}
+    res["counters"] = {f"fuzz[{target}]:executions": execs, f"fuzz[{target}]:coverage-edges": cov, f"fuzz[{target}]:features": ft,
+                       f"fuzz[{target}]:corpus-units": corp, f"fuzz[{target}]:seed-corpus-files": nseeds, f"fuzz[{target}]:dictionary-entries": ndict}
+    res["coverage"] = {"engine": "libFuzzer -fork=16" + (" -use_value_profile=1" if value_profile else ""), "target": target,
+                       "seconds": round(time.time() - t0, 1), "executions": execs, "coverage_edges": cov, "corpus_units": corp, "max_len": 8192}
     if execs == 0:
         res["inconclusive"].append("libFuzzer reported no executions: " + out[-600:])
-    # classify artifacts with the main harness
-    arts = sorted(glob.glob(art + "crash-*")) + sorted(glob.glob(art + "timeout-*"))
-    res["counters"]["fuzz:artifacts"] = len(arts)
-    for a in arts[:200]:
-        c = subprocess.run([binp, "fuzzcase", pid, a], capture_output=True, text=True, timeout=120)
+    arts = sorted(glob.glob(art + "crash-*")) + sorted(glob.glob(art + "timeout-*")) + sorted(glob.glob(art + "oom-*"))
+    res["counters"][f"fuzz[{target}]:artifacts"] = len(arts)
+    other = 0
+    for a in arts[:300]:
+        try:
+            c = subprocess.run([binp, "fuzzcase", target, a], capture_output=True, text=True, timeout=300)
+        except subprocess.TimeoutExpired:
+            res["inconclusive"].append(f"replaying fuzz artifact {os.path.basename(a)} timed out")
+            continue
+        mine = False
         for line in c.stdout.splitlines():
             if line.startswith("FUZZ-VIOLATION "):
                 _, prop, sig, detail = line.split(" ", 3)
                 if prop == pid:
+                    mine = True
                     keep = os.path.join(VERIF, "replay", pid)
                     os.makedirs(keep, exist_ok=True)
                     dst = os.path.join(keep, os.path.basename(a))
                     shutil.copyfile(a, dst)
-                    res["violations"].append({"sig": sig, "detail": f"[libFuzzer input {dst}] {detail}", "stratum": "libfuzzer", "case": 0,
-                                              "input_hex": open(a, "rb").read()[:4096].hex(), "phase": "fuzz", "cmd": f"{binp} fuzzcase {pid} {dst}"})
-        if a.startswith(art + "timeout-"):
-            res["counters"]["fuzz:timeouts"] = res["counters"].get("fuzz:timeouts", 0) + 1
-    res["samples"] = [f"[libfuzzer] {execs} executions, {cov} edges, corpus {corp} units in {seconds}s"]
+                    res["violations"].append({"sig": sig, "detail": f"[libFuzzer target {target}, input {dst}] {detail}", "stratum": "libfuzzer", "case": 0,
+                                              "input_hex": open(a, "rb").read()[:4096].hex(), "phase": "fuzz", "cmd": f"{binp} fuzzcase {target} {dst}"})
+        if not mine:
+            other += 1
+    res["counters"][f"fuzz[{target}]:artifacts-not-reproduced-or-other-property"] = other
+    res["samples"] = [f"[libfuzzer {target}] {execs} executions, {cov} edges, corpus {corp} units in {seconds}s, {len(arts)} artifacts"]
     if not res["violations"]:
         shutil.rmtree(wd, ignore_errors=True)
     return res
